@@ -252,6 +252,9 @@ class Unit:
                     # (round 9) remembered so that `.lock()` on a place declared `Mutex<Opaque>` is the identity as well
                     self.mutex_opaques = getattr(self, "mutex_opaques", set()) | {r_[1]}
                 return r_
+            if n in getattr(self, "vec_types", ()) and len(t[2]) == 1:
+                # (round 9) target key `vec_types`: wrappers that deref to a slice of their argument (`vls_protocol::Array<T>`)
+                return ("vec", self.resolve(t[2][0], impl))
             if n == "Weak" and len(t[2]) == 1:
                 # (round 9) `Weak<T>`: the value if it is still alive -- `Option T`; `.upgrade()` is the identity on it, so
                 # `.upgrade().unwrap()` panics exactly when the target is gone
@@ -637,6 +640,7 @@ class FnTranslator:
         info.dropped = self.dropped
         info.needs_deq = self.needs_deq
         info.line, info.text, info.vis = f["line"], f["text"], f["vis"]
+        info.line = getattr(u, "line_map", {}).get((self.impl, f["name"]), info.line)
         info.end_line = f["end_line"]
         info.rel = u.rel
         info.unit = u
@@ -1122,7 +1126,13 @@ class FnTranslator:
         fv = []
         def walk(a):
             if isinstance(a, tuple):
-                if a and a[0] == "macro": raise RsError("macro inside the opaque initialiser of `%s`" % name)
+                if a and a[0] == "macro":
+                    # (round 9) a `"partial"` initialiser may contain `assert!`/`format!`…: every identifier token of the
+                    # macro's arguments that names a variable in scope counts as read (an over-approximation)
+                    if not spec.get("partial"): raise RsError("macro inside the opaque initialiser of `%s`" % name)
+                    for tk in a[2]:
+                        if tk.k == "id" and tk.s in env and tk.s not in fv: fv.append(tk.s)
+                    return
                 if len(a) == 2 and a[0] == "path" and isinstance(a[1], list) and len(a[1]) == 1 and a[1][0] in env \
                         and a[1][0] not in fv:
                     fv.append(a[1][0])
@@ -1139,7 +1149,7 @@ class FnTranslator:
             terms.append(term if " " not in term or term.startswith("(") else "(" + term + ")")
             tys.append(t)
         u = self.u
-        lty = LazyTy(u, tys, rt, None)
+        lty = LazyTy(u, tys, rt, "Rs.M" if spec.get("partial") else None)     # (round 9) "partial": it may panic (`expect`, `assert!`)
         for t in tys + [rt]:
             self.u.opaques_of(t, self.ext_opaques)
         ident = "ext_let_" + name
@@ -1148,7 +1158,8 @@ class FnTranslator:
                             % (name, line, spec["callee"], ident, ", ".join(spec["args"])))
         env2 = dict(env)
         env2[name] = rt
-        pre.append(("let", lid(name), "(%s %s)" % (ident, " ".join(terms))))
+        if spec.get("partial"): pre.append(("bind", lid(name), MCall("%s %s" % (ident, " ".join(terms)))))
+        else: pre.append(("let", lid(name), "(%s %s)" % (ident, " ".join(terms))))
         return self.wrap(pre, self.stmts(rest, tail, env2, fin))
 
     def bind_pat(self, pat, t, env):
@@ -2096,6 +2107,7 @@ class FnTranslator:
             term, t = self.expr(fe, env, pre, ft)
             self.check_ty(t, ft, "field %s" % f)
             parts.append("%s := %s" % (lid(f), term))
+        if not parts: return "⟨⟩", ("struct", name)        # (round 9) a structure without (used) fields: `mk ::`
         return "{ " + ", ".join(parts) + " }", ("struct", name)
 
     def format_(self, e, env, pre):
@@ -2157,6 +2169,15 @@ class FnTranslator:
                 self.check_ty(t, c[2], "constant " + segs[1])
                 return "(%s : %s)" % (term, self.u.lt(t)), t
             if c is not None: return self.lit(c[0], c[1]), c[1]
+        if len(segs) == 2 and segs[0] in self.u.fi.structs:
+            # (round 9) integer associated constant of another structure of the unit (`Htlc::LOCAL`): looked up in the
+            # file that declares the structure
+            srcrel = self.u.struct_src.get(segs[0])
+            for idx in self.u.const_idx:
+                if idx.rel == srcrel and segs[1] in idx.consts:
+                    ty, ce = idx.consts[segs[1]]
+                    rt = self.u.resolve(ty)
+                    if is_int(rt): return self.lit(self.u.const_eval(ce, {}), rt), rt
         raise RsError("path %s is outside the subset" % "::".join(segs))
 
     def unary(self, e, env, pre, want):
@@ -2740,7 +2761,7 @@ class FnTranslator:
         def synth(ret):
             return {"name": fname, "impl": self.impl, "self": "ref" if uses_self else None, "ret": ret, "body": body,
                     "params": [(("pvar", v), ("resolved", env[v]), False, False) for v in caps] + [(("pvar", xname), ("resolved", xty), False, True)],
-                    "vis": "", "line": self.f["line"], "end_line": self.f["end_line"],
+                    "vis": "", "line": getattr(self.u, "line_map", {}).get((self.impl, self.f["name"]), self.f["line"]), "end_line": self.f["end_line"],
                     "text": "closure |%s| of %s(..) in %s" % (xname, name, self.f["text"][:60])}
         key = (self.impl, fname)
         if key not in self.u.fns:
